@@ -513,4 +513,223 @@ package vm
 //@   ensures [pc]   *pc == old(*pc)
 //@   modifies callContext.stack.data, elems(callContext.stack.data)
 
+// pushes of one word
+//@ func opPc
+//@   property C10 C11 C12
+//@   requires pc != nil && callContext != nil && callContext.stack != nil && true
+//@   ensures [len]  len(callContext.stack.data) == old(len(callContext.stack.data)) + 1
+//@   ensures [top]  callContext.stack.data[len(callContext.stack.data)-1] == zext(256, old(*pc))
+//@   ensures [rest] forall i int :: 0 <= i && i < old(len(callContext.stack.data)) ==> callContext.stack.data[i] == old(callContext.stack.data[i])
+//@   ensures [ret]  result1 == nil && len(result0) == 0
+//@   ensures [pc]   *pc == old(*pc)
+//@   modifies *pc, callContext.stack.data, elems(callContext.stack.data)
+
+//@ func opMsize
+//@   property C10 C11 C12
+//@   requires pc != nil && callContext != nil && callContext.stack != nil && callContext.memory != nil
+//@   ensures [len]  len(callContext.stack.data) == old(len(callContext.stack.data)) + 1
+//@   ensures [top]  callContext.stack.data[len(callContext.stack.data)-1] == zext(256, uint64(len(callContext.memory.store)))
+//@   ensures [rest] forall i int :: 0 <= i && i < old(len(callContext.stack.data)) ==> callContext.stack.data[i] == old(callContext.stack.data[i])
+//@   ensures [ret]  result1 == nil && len(result0) == 0
+//@   ensures [pc]   *pc == old(*pc)
+//@   modifies *pc, callContext.stack.data, elems(callContext.stack.data)
+
+//@ func opGas
+//@   property C10 C11 C12
+//@   requires pc != nil && callContext != nil && callContext.stack != nil && callContext.contract != nil
+//@   ensures [len]  len(callContext.stack.data) == old(len(callContext.stack.data)) + 1
+//@   ensures [top]  callContext.stack.data[len(callContext.stack.data)-1] == zext(256, callContext.contract.Gas)
+//@   ensures [rest] forall i int :: 0 <= i && i < old(len(callContext.stack.data)) ==> callContext.stack.data[i] == old(callContext.stack.data[i])
+//@   ensures [ret]  result1 == nil && len(result0) == 0
+//@   ensures [pc]   *pc == old(*pc)
+//@   modifies *pc, callContext.stack.data, elems(callContext.stack.data)
+
+//@ func opCallDataSize
+//@   property C10 C11 C12
+//@   requires pc != nil && callContext != nil && callContext.stack != nil && callContext.contract != nil
+//@   ensures [len]  len(callContext.stack.data) == old(len(callContext.stack.data)) + 1
+//@   ensures [top]  callContext.stack.data[len(callContext.stack.data)-1] == zext(256, uint64(len(callContext.contract.Input)))
+//@   ensures [rest] forall i int :: 0 <= i && i < old(len(callContext.stack.data)) ==> callContext.stack.data[i] == old(callContext.stack.data[i])
+//@   ensures [ret]  result1 == nil && len(result0) == 0
+//@   ensures [pc]   *pc == old(*pc)
+//@   modifies *pc, callContext.stack.data, elems(callContext.stack.data)
+
+//@ func opCodeSize
+//@   property C10 C11 C12
+//@   requires pc != nil && callContext != nil && callContext.stack != nil && callContext.contract != nil
+//@   ensures [len]  len(callContext.stack.data) == old(len(callContext.stack.data)) + 1
+//@   ensures [top]  callContext.stack.data[len(callContext.stack.data)-1] == zext(256, uint64(len(callContext.contract.Code)))
+//@   ensures [rest] forall i int :: 0 <= i && i < old(len(callContext.stack.data)) ==> callContext.stack.data[i] == old(callContext.stack.data[i])
+//@   ensures [ret]  result1 == nil && len(result0) == 0
+//@   ensures [pc]   *pc == old(*pc)
+//@   modifies *pc, callContext.stack.data, elems(callContext.stack.data)
+
+//@ func opReturnDataSize
+//@   property C10 C11 C12
+//@   requires pc != nil && callContext != nil && callContext.stack != nil && interpreter != nil
+//@   ensures [len]  len(callContext.stack.data) == old(len(callContext.stack.data)) + 1
+//@   ensures [top]  callContext.stack.data[len(callContext.stack.data)-1] == zext(256, uint64(len(interpreter.returnData)))
+//@   ensures [rest] forall i int :: 0 <= i && i < old(len(callContext.stack.data)) ==> callContext.stack.data[i] == old(callContext.stack.data[i])
+//@   ensures [ret]  result1 == nil && len(result0) == 0
+//@   ensures [pc]   *pc == old(*pc)
+//@   modifies *pc, callContext.stack.data, elems(callContext.stack.data)
+
+//@ func opGasLimit
+//@   property C10 C11 C12
+//@   requires pc != nil && callContext != nil && callContext.stack != nil && interpreter != nil && interpreter.evm != nil
+//@   ensures [len]  len(callContext.stack.data) == old(len(callContext.stack.data)) + 1
+//@   ensures [top]  callContext.stack.data[len(callContext.stack.data)-1] == zext(256, interpreter.evm.GasLimit)
+//@   ensures [rest] forall i int :: 0 <= i && i < old(len(callContext.stack.data)) ==> callContext.stack.data[i] == old(callContext.stack.data[i])
+//@   ensures [ret]  result1 == nil && len(result0) == 0
+//@   ensures [pc]   *pc == old(*pc)
+//@   modifies *pc, callContext.stack.data, elems(callContext.stack.data)
+
+//@ func opPush1
+//@   property C10 C11 C12
+//@   requires pc != nil && callContext != nil && callContext.stack != nil && callContext.contract != nil && *pc < 4611686018427387904
+//@   ensures [len]  len(callContext.stack.data) == old(len(callContext.stack.data)) + 1
+//@   ensures [top]  callContext.stack.data[len(callContext.stack.data)-1] == ite(old(*pc) + 1 < uint64(len(callContext.contract.Code)), zext(256, callContext.contract.Code[old(*pc)+1]), u256(0))
+//@   ensures [rest] forall i int :: 0 <= i && i < old(len(callContext.stack.data)) ==> callContext.stack.data[i] == old(callContext.stack.data[i])
+//@   ensures [ret]  result1 == nil && len(result0) == 0
+//@   ensures [pc]   *pc == old(*pc) + 1
+//@   modifies *pc, callContext.stack.data, elems(callContext.stack.data)
+
+//@ func opPush0
+//@   property C10 C11 C12
+//@   requires pc != nil && scope != nil && scope.stack != nil && true
+//@   ensures [len]  len(scope.stack.data) == old(len(scope.stack.data)) + 1
+//@   ensures [top]  scope.stack.data[len(scope.stack.data)-1] == u256(0)
+//@   ensures [rest] forall i int :: 0 <= i && i < old(len(scope.stack.data)) ==> scope.stack.data[i] == old(scope.stack.data[i])
+//@   ensures [ret]  result1 == nil && len(result0) == 0
+//@   ensures [pc]   *pc == old(*pc)
+//@   modifies *pc, scope.stack.data, elems(scope.stack.data)
+
 // ---- GENERATED: end ----
+
+// ---------------------------------------------------------------------------------------------
+// Stack manipulation, memory, call data and jumps (C10/C11). Hand-written.
+// wordAt(m, off): the 32-byte big-endian word at byte offset off of slice m.
+
+//@ func opPop
+//@   property C10 C11 C12
+//@   requires callContext != nil && callContext.stack != nil && len(callContext.stack.data) >= 1
+//@   ensures [len]  len(callContext.stack.data) == old(len(callContext.stack.data)) - 1
+//@   ensures [rest] forall i int :: 0 <= i && i < len(callContext.stack.data) ==> callContext.stack.data[i] == old(callContext.stack.data[i])
+//@   ensures [ret]  result1 == nil && len(result0) == 0
+//@   ensures [pc]   *pc == old(*pc)
+//@   modifies callContext.stack.data
+
+//@ func makeDup$1
+//@   property C10 C11 C12
+//@   requires callContext != nil && callContext.stack != nil && size >= 1 && size <= 16 && int64(len(callContext.stack.data)) >= size
+//@   ensures [len]  len(callContext.stack.data) == old(len(callContext.stack.data)) + 1
+//@   ensures [top]  callContext.stack.data[len(callContext.stack.data)-1] == old(callContext.stack.data[len(callContext.stack.data)-int(size)])
+//@   ensures [rest] forall i int :: 0 <= i && i < old(len(callContext.stack.data)) ==> callContext.stack.data[i] == old(callContext.stack.data[i])
+//@   ensures [ret]  result1 == nil && len(result0) == 0
+//@   ensures [pc]   *pc == old(*pc)
+//@   modifies callContext.stack.data, elems(callContext.stack.data)
+
+//@ func makeSwap$1
+//@   property C10 C11 C12
+//@   requires callContext != nil && callContext.stack != nil && size >= 2 && size <= 17 && int64(len(callContext.stack.data)) >= size
+//@   ensures [len]  len(callContext.stack.data) == old(len(callContext.stack.data))
+//@   ensures [top]  callContext.stack.data[len(callContext.stack.data)-1] == old(callContext.stack.data[len(callContext.stack.data)-int(size)])
+//@   ensures [deep] callContext.stack.data[len(callContext.stack.data)-int(size)] == old(callContext.stack.data[len(callContext.stack.data)-1])
+//@   ensures [rest] forall i int :: 0 <= i && i < len(callContext.stack.data)-1 && i != len(callContext.stack.data)-int(size) ==> callContext.stack.data[i] == old(callContext.stack.data[i])
+//@   ensures [ret]  result1 == nil && len(result0) == 0
+//@   ensures [pc]   *pc == old(*pc)
+//@   modifies elems(callContext.stack.data)
+
+// Memory words. The interpreter has resized memory to cover [off, off+32) before these run (C11 table facts).
+//@ func opMload
+//@   property C10 C11 C12
+//@   requires callContext != nil && callContext.stack != nil && callContext.memory != nil && len(callContext.stack.data) >= 1
+//@   requires [mem] callContext.stack.data[len(callContext.stack.data)-1] < 4611686018427387904 && low64(callContext.stack.data[len(callContext.stack.data)-1]) + 32 <= uint64(len(callContext.memory.store))
+//@   ensures [len]  len(callContext.stack.data) == old(len(callContext.stack.data))
+//@   ensures [top]  callContext.stack.data[len(callContext.stack.data)-1] == @be256(arr(callContext.memory.store), off(callContext.memory.store) + int(low64(old(callContext.stack.data[len(callContext.stack.data)-1]))), 32)
+//@   ensures [rest] forall i int :: 0 <= i && i < len(callContext.stack.data)-1 ==> callContext.stack.data[i] == old(callContext.stack.data[i])
+//@   ensures [ret]  result1 == nil && len(result0) == 0
+//@   ensures [pc]   *pc == old(*pc)
+//@   modifies elems(callContext.stack.data)
+
+//@ func Memory.Set32
+//@   property C10 C11
+//@   requires m != nil && val != nil && offset < 4611686018427387904 && offset + 32 <= uint64(len(m.store))
+//@   ensures [word]  @be256(arr(m.store), off(m.store) + int(offset), 32) == old(u256(val))
+//@   ensures [below] unchanged(m.store, 0, offset)
+//@   ensures [above] unchanged(m.store, offset + 32, len(m.store))
+//@   modifies elems(m.store)
+
+//@ func opMstore
+//@   property C10 C11 C12
+//@   requires callContext != nil && callContext.stack != nil && callContext.memory != nil && len(callContext.stack.data) >= 2
+//@   requires [mem] callContext.stack.data[len(callContext.stack.data)-1] < 4611686018427387904 && low64(callContext.stack.data[len(callContext.stack.data)-1]) + 32 <= uint64(len(callContext.memory.store))
+//@   requires [sep] ref(callContext.memory.store) != ref(callContext.stack.data)
+//@   ensures [len]   len(callContext.stack.data) == old(len(callContext.stack.data)) - 2
+//@   ensures [word]  @be256(arr(callContext.memory.store), off(callContext.memory.store) + int(low64(old(callContext.stack.data[len(callContext.stack.data)-1]))), 32) == old(callContext.stack.data[len(callContext.stack.data)-2])
+//@   ensures [below] unchanged(callContext.memory.store, 0, low64(old(callContext.stack.data[len(callContext.stack.data)-1])))
+//@   ensures [above] unchanged(callContext.memory.store, low64(old(callContext.stack.data[len(callContext.stack.data)-1])) + 32, len(callContext.memory.store))
+//@   ensures [rest]  forall i int :: 0 <= i && i < len(callContext.stack.data) ==> callContext.stack.data[i] == old(callContext.stack.data[i])
+//@   ensures [ret]   result1 == nil && len(result0) == 0
+//@   ensures [pc]    *pc == old(*pc)
+//@   modifies callContext.stack.data, elems(callContext.memory.store)
+
+//@ func opMstore8
+//@   property C10 C11 C12
+//@   requires callContext != nil && callContext.stack != nil && callContext.memory != nil && len(callContext.stack.data) >= 2
+//@   requires [mem] callContext.stack.data[len(callContext.stack.data)-1] < 4611686018427387904 && low64(callContext.stack.data[len(callContext.stack.data)-1]) < uint64(len(callContext.memory.store))
+//@   requires [sep] ref(callContext.memory.store) != ref(callContext.stack.data)
+//@   ensures [len]   len(callContext.stack.data) == old(len(callContext.stack.data)) - 2
+//@   ensures [byte]  callContext.memory.store[low64(old(callContext.stack.data[len(callContext.stack.data)-1]))] == byte(low64(old(callContext.stack.data[len(callContext.stack.data)-2])))
+//@   ensures [below] unchanged(callContext.memory.store, 0, low64(old(callContext.stack.data[len(callContext.stack.data)-1])))
+//@   ensures [above] unchanged(callContext.memory.store, low64(old(callContext.stack.data[len(callContext.stack.data)-1])) + 1, len(callContext.memory.store))
+//@   ensures [rest]  forall i int :: 0 <= i && i < len(callContext.stack.data) ==> callContext.stack.data[i] == old(callContext.stack.data[i])
+//@   ensures [ret]   result1 == nil && len(result0) == 0
+//@   ensures [pc]    *pc == old(*pc)
+//@   modifies callContext.stack.data, elems(callContext.memory.store)
+
+// Jumps: a taken jump lands on a JUMPDEST byte inside the code (C10); everything else is an ordinary error.
+//@ func Contract.validJumpdest
+//@   property C10 C11
+//@   requires c != nil && dest != nil && len(c.Code) < 1099511627776
+//@   requires [analysis] c.analysis != nil ==> uint64(len(c.analysis)) > uint64(len(c.Code)) / 8
+//@   requires [cache] c.jumpdests != nil && (has(c.jumpdests, c.CodeHash) ==> uint64(len(c.jumpdests[c.CodeHash])) > uint64(len(c.Code)) / 8)
+//@   ensures [dest] result ==> u256(dest) < zext(256, uint64(len(c.Code))) && c.Code[low64(u256(dest))] == 91
+//@   ensures [code] len(c.Code) == old(len(c.Code)) && ref(c.Code) == old(ref(c.Code)) && off(c.Code) == old(off(c.Code))
+//@   modifies c.analysis, heap("map[common.Hash]vm.bitvec")
+
+//@ func Contract.isCode
+//@   property C10 C11
+//@   requires c != nil && udest < uint64(len(c.Code)) && len(c.Code) < 1099511627776
+//@   requires [analysis] c.analysis != nil ==> uint64(len(c.analysis)) > uint64(len(c.Code)) / 8
+//@   requires [cache] c.jumpdests != nil && (has(c.jumpdests, c.CodeHash) ==> uint64(len(c.jumpdests[c.CodeHash])) > uint64(len(c.Code)) / 8)
+//@   ensures [code] len(c.Code) == old(len(c.Code)) && ref(c.Code) == old(ref(c.Code)) && off(c.Code) == old(off(c.Code))
+//@   ensures [analysis] c.analysis != nil && uint64(len(c.analysis)) > uint64(len(c.Code)) / 8
+//@   modifies c.analysis, heap("map[common.Hash]vm.bitvec")
+
+//@ func bitvec.set
+//@   property C11
+//@   requires bits != nil && pos / 8 < uint64(len(*bits))
+//@   ensures len(*bits) == old(len(*bits)) && ref(*bits) == old(ref(*bits))
+//@   modifies elems(*bits)
+
+//@ func bitvec.set8
+//@   property C11
+//@   requires bits != nil && pos / 8 + 1 < uint64(len(*bits)) && pos < 4611686018427387904
+//@   ensures len(*bits) == old(len(*bits)) && ref(*bits) == old(ref(*bits))
+//@   modifies elems(*bits)
+
+//@ func bitvec.codeSegment
+//@   property C11
+//@   requires bits != nil && pos / 8 < uint64(len(*bits))
+//@   modifies nothing
+
+//@ func codeBitmap
+//@   property C11
+//@   # environment bound: code is held in memory, far below 2^40 bytes
+//@   requires len(code) < 1099511627776
+//@   loop 0: invariant pc <= uint64(len(code)) + 32 && len(bits) == len(code)/8 + 5
+//@   loop 1: invariant numbits <= 32 && pc <= uint64(len(code)) + 32 && pc + uint64(numbits) <= uint64(len(code)) + 32 && len(bits) == len(code)/8 + 5
+//@   loop 2: invariant numbits <= 32 && pc <= uint64(len(code)) + 32 && pc + uint64(numbits) <= uint64(len(code)) + 32 && len(bits) == len(code)/8 + 5
+//@   ensures [len] len(result) == len(code)/8 + 5
+//@   modifies nothing
